@@ -349,7 +349,9 @@ fn setup(dir: &Path, list: &[usize], aliased: bool) -> (Vec<(PathBuf, Option<Vec
     let mut contents: Vec<(PathBuf, Option<Vec<u8>>)> = vec![];
     let mut paths: Vec<PathBuf> = vec![];
     for (i, k) in list.iter().enumerate() {
-        let p = dir.join(format!("f{i}.pas"));
+        // names that differ only in letter case: distinct files on a case-sensitive file system,
+        // forced to collide in anything that folds case
+        let p = dir.join(["unit.pas", "Unit.pas", "UNIT.pas", "uNIT.PAS"][i % 4]);
         contents.push((p.clone(), file_bytes(*k)));
         paths.push(p.clone());
         if aliased && i == 0 {
